@@ -40,6 +40,9 @@ def run(ctx: Ctx):
     from .common import generic_lints
 
     generic_lints(ctx)
+    from .common import block_nan_by_some_subtotal
+
+    block_nan_by_some_subtotal(ctx)
     from .common import dependency_footprints
 
     dependency_footprints(ctx)
